@@ -37,10 +37,26 @@ func (s *Sim) acctId(ref string) string {
 		return chain.CosmosAccountId(s.W.Cfg.ChainID, s.bech(i))
 	case 'o':
 		return chain.CosmosAccountId("otherchain-1", s.bech(i))
+	case 'E':
+		// the same ethereum account as "e<i>", spelled with its EIP-55 checksum capitals
+		return "eip155:1:" + ethcrypto.PubkeyToAddress(ethKey(i).PublicKey).Hex()
+	case 'U':
+		// ... and all in capitals
+		return "eip155:1:0x" + strings.ToUpper(ethcrypto.PubkeyToAddress(ethKey(i).PublicKey).Hex()[2:])
 	default:
 		return "eip155:1:" + strings.ToLower(ethcrypto.PubkeyToAddress(ethKey(i).PublicKey).Hex())
 	}
 }
+
+// canonAccountId: two account ids that differ only in the letter case of an ethereum address name the same account.
+func canonAccountId(id string) string {
+	if strings.HasPrefix(id, "eip155:") {
+		return strings.ToLower(id)
+	}
+	return id
+}
+
+func isEth(ref string) bool { return ref[0] == 'e' || ref[0] == 'E' || ref[0] == 'U' }
 
 func acctDid(ref string) string { return "did:key:acct-" + ref }
 
@@ -57,18 +73,18 @@ func (s *Sim) signProof(ref, signer, pubOf, message string) string {
 	case 'c', 'o':
 		addr := s.bech(atoi(ref[1:]))
 		sk := s.acct(atoi(signer[1:])).Priv
-		if signer[0] == 'e' {
+		if isEth(signer) {
 			sk = secp256k1.GenPrivKeyFromSecret([]byte("not-an-account"))
 		}
 		pk := sk.PubKey()
-		if pubOf != "" && pubOf[0] != 'e' {
+		if pubOf != "" && !isEth(pubOf) {
 			pk = s.acct(atoi(pubOf[1:])).Priv.PubKey()
 		}
 		sig, _ := sk.Sign(didkeeper.GetSignData(addr, message))
 		return "tendermint/PubKeySecp256k1." + b64(pk.Bytes()) + "." + b64(sig)
 	default:
 		k := ethKey(atoi(ref[1:]))
-		if signer[0] == 'e' {
+		if isEth(signer) {
 			k = ethKey(atoi(signer[1:]))
 		} else {
 			k = ethKey(90 + atoi(signer[1:]))
@@ -118,7 +134,7 @@ func (s *Sim) buildDidBind(a *Action) sdk.Msg {
 	}
 	a.Extra["_message"], a.Extra["_sig"], a.Extra["_did"], a.Extra["_msgDid"] = message, sig, did, msgDid
 	acctAddr := ref
-	if ref[0] != 'e' {
+	if !isEth(ref) {
 		acctAddr = s.bech(atoi(ref[1:]))
 	}
 	return &didtypes.MsgBinding{
@@ -303,8 +319,8 @@ func (o *C17Oracle) invariants(s *Sim, sn *chain.Snapshot, a *Action) {
 	// J1 (=>): every binding has exactly one list entry
 	bound := map[string]int{}
 	for _, d := range g.DidList {
-		bound[d.AccountId]++
-		if bound[d.AccountId] > 1 {
+		bound[canonAccountId(d.AccountId)]++
+		if bound[canonAccountId(d.AccountId)] > 1 {
 			s.FailT("account-bound-twice", "", nil, "account %s has two bindings", d.AccountId)
 		}
 		n := 0
@@ -361,7 +377,7 @@ func c17Property(t *rapid.T) {
 	aborted := RunCase(func() {
 		now := uint64(s.C.Time.Unix())
 		cos := []string{"c2", "c3", "c4", "c5", "c6"}
-		all := append(append([]string{}, cos...), "e0", "e1", "o7")
+		all := append(append([]string{}, cos...), "e0", "e1", "o7", "E0", "U1")
 		var sids []int // indexes into s.Dids
 		gen := map[int]int{}
 		var binds []int // history indexes of successful-or-not bind messages (for replays)
@@ -395,7 +411,7 @@ func c17Property(t *rapid.T) {
 						a.Extra["variant"] = "valid"
 					}
 				case 1:
-					if ref[0] != 'e' {
+					if !isEth(ref) {
 						a.Extra["variant"] = "pubkey-of-account-signature-of-other"
 						a.Extra["proofSigner"] = rapid.SampledFrom(cos).Draw(t, "signer")
 						a.Extra["proofPub"] = ref
